@@ -4,7 +4,7 @@ import torch
 from hypothesis import strategies as st
 
 from kappadata.datasets import KDDataset
-from vlib.core import Case, Facet, Refused, Violation
+from vlib.core import Case, Facet, Refused, Violation, guarded
 
 # thorough-tier budgets of every facet are multiplied by this factor (sized for ~5-8 min on 16 cores)
 THOROUGH_SCALE = 3
@@ -23,6 +23,7 @@ class IdRoot(KDDataset):
     def __init__(self, n, C, key, shapes):
         super().__init__()
         self.n, self.C, self.key, self.shapes = n, C, key, shapes
+        self.label_form = "int"
 
     def __len__(self):
         return self.n
@@ -32,8 +33,30 @@ class IdRoot(KDDataset):
         g = np.random.default_rng([self.key, idx])
         return torch.from_numpy(g.random(size=tuple(self.shapes[idx]), dtype=np.float32)) * 0.25 + (idx + 1)
 
-    def getitem_class(self, idx, ctx=None):
+    def class_of(self, idx):
         return int((int(idx) * 5 + self.key) % self.C)
+
+    def label_vector(self, idx):
+        """what the label of sample idx means as a distribution over C classes (float32)"""
+        c, v = self.class_of(idx), torch.zeros(self.C)
+        if self.label_form.startswith("soft") and self.C >= 2:
+            v[c], v[(c + 1) % self.C] = 0.75, 0.25
+        else:
+            v[c] = 1
+        return v
+
+    def getitem_class(self, idx, ctx=None):
+        # a fresh object on every call, in the form the dataset happens to store its labels in
+        f = self.label_form
+        if f == "int":
+            return self.class_of(idx)
+        if f == "tensor0d":
+            return torch.tensor(self.class_of(idx))
+        if f == "onehot_int64":
+            return self.label_vector(idx).long()
+        if f == "soft_float64":
+            return self.label_vector(idx).double()
+        return self.label_vector(idx)  # soft_float32
 
     def getitem_other(self, idx, ctx=None):
         return ("other", int(idx))
@@ -54,33 +77,34 @@ def decode(root, i, x, y, unify):
     """returns ('plain', None, None) or ('mixed', j, w) or raises"""
     n, C = root.n, root.C
     xi = root.getitem_x(i)
-    ci = root.getitem_class(i)
+    Yi = root.label_vector(i)
     if not (torch.is_tensor(y) and tuple(y.shape) == (C,)):
         raise Violation("label-not-a-class-vector", f"{getattr(y, 'shape', type(y))}")
+    if not y.is_floating_point():
+        raise Violation("label-not-a-float-vector", str(y.dtype))
+    y = y.float()
     if float(y.min()) < -1e-7 or abs(float(y.sum()) - 1) > 1e-5:
         raise Violation("label-not-a-distribution", str(y.tolist()))
     if x is not None and tuple(x.shape) != tuple(xi.shape):
         raise Violation("output-shape-differs-from-sample-shape", f"{tuple(x.shape)} vs {tuple(xi.shape)}")
-    onehot = torch.zeros(C)
-    onehot[ci] = 1
-    if (x is None or torch.equal(x, xi)) and torch.equal(y, onehot):
+    if (x is None or torch.equal(x, xi)) and float((y - Yi).abs().max()) <= 1e-6:
         return "plain", None, None
     # mixed: find j and w
     for j in range(n):
-        cj = root.getitem_class(j)
+        Yj = root.label_vector(j)
         xj = root.getitem_x(j)
         if unify:
             xj = refit(xj, tuple(xi.shape))
         elif tuple(xj.shape) != tuple(xi.shape):
             continue
-        # weight from the label where the classes differ, else from the data
-        if ci != cj:
-            w = float(y[ci])
-            yexp = torch.zeros(C)
-            yexp[ci] = w
-            yexp[cj] = 1 - w
+        # weight from the label where the two label vectors differ, else from the data
+        dy = Yi - Yj
+        if float(dy.abs().max()) > 1e-6:
+            k = int(dy.abs().argmax())
+            w = float((y[k] - Yj[k]) / dy[k])
+            yexp = w * Yi + (1 - w) * Yj
         else:
-            yexp = onehot
+            yexp = Yi
             w = None
         if float((y - yexp).abs().max()) > 1e-5:
             continue
@@ -111,6 +135,7 @@ def build(spec):
     else:
         shapes = [list(base)] * n
     root = IdRoot(n, spec["C"], spec["key"], shapes)
+    root.label_form = spec.get("label_form") or "int"
     try:
         seed = spec["seed"]
         if seed is not None and spec.get("seed_form") == "numpy":
@@ -123,11 +148,28 @@ def build(spec):
 
 
 def check(spec):
+    # interpreter state: the library must not depend on torch's default dtype being float32
+    if spec.get("default_dtype") == "float64":
+        old = torch.get_default_dtype()
+        torch.set_default_dtype(torch.float64)
+        try:
+            return _check(spec)
+        finally:
+            torch.set_default_dtype(old)
+    return _check(spec)
+
+
+def _check(spec):
     from kappadata.wrappers import ModeWrapper
     root, ds = build(spec)
     forms = spec["forms"]
     n_mixed = 0
-    for i in [k % spec["n"] for k in spec["idx"]]:
+    idxs = [k % spec["n"] for k in spec["idx"]]
+    for pos, i in enumerate(idxs):
+        if spec.get("C2") and pos == (len(idxs) + 1) // 2:
+            # the wrapped dataset's class count is re-configured in the middle of the history (KDRandomClassWrapper has a public setter
+            # for it): label vectors follow the count that is announced when the sample is requested
+            root.C = spec["C2"]
         seen = {}
         for form in forms:
             mw = ModeWrapper(ds, mode=form)
@@ -196,14 +238,17 @@ def spec_s(draw, big=False):
             "unify": False if big else draw(st.booleans()), "p": draw(st.sampled_from([1.0, 0.5, 0.2, 0.9])),
             "alpha": draw(st.sampled_from([0.1, 0.8, 1.0, 4.0])), "seed": draw(st.one_of(st.none(), st.integers(0, 2 ** 31))),
             "seed_form": draw(st.sampled_from(["int", "int", "numpy"])),
+            "label_form": draw(st.sampled_from(["int", "int", "int", "tensor0d", "onehot_int64", "soft_float64", "soft_float32"])),
+            "default_dtype": draw(st.sampled_from([None, None, None, "float64"])),
+            "C2": draw(st.sampled_from([None, None, None, 2, 3, 7, 10])),
             "idx": draw(st.lists(st.integers(0, 100), min_size=1, max_size=6)),
             "forms": draw(st.lists(st.sampled_from(FORMS), min_size=1, max_size=5, unique=True))}
 
 
 FACETS = [
-    Facet("mix-wrapper", check, strategy=lambda tier: spec_s(), budget={"quick": 4000, "thorough": 60000},
+    Facet("mix-wrapper", guarded("mix-wrapper", check), strategy=lambda tier: spec_s(), budget={"quick": 4000, "thorough": 60000},
           shards={"quick": 8, "thorough": 16}, min_nontrivial={"quick": 800, "thorough": 8000}),
-    Facet("probability-one", check_p1, strategy=lambda tier: spec_s(big=True), budget={"quick": 300, "thorough": 4000},
+    Facet("probability-one", guarded("probability-one", check_p1), strategy=lambda tier: spec_s(big=True), budget={"quick": 300, "thorough": 4000},
           shards={"quick": 2, "thorough": 8}, min_nontrivial={"quick": 100, "thorough": 1000}),
     Facet("cutmix-refused", check_cutmix_refused,
           strategy=lambda tier: st.fixed_dictionaries({"seed": st.one_of(st.none(), st.integers(0, 99)), "i": st.integers(0, 9)}),
